@@ -14,7 +14,7 @@
 #include "xtl/xmultimethods.hpp"
 #include "xtl/xvisitor.hpp"
 
-#define DISPATCH_OPS(X) X(insert) X(erase) X(dispatch) X(dispatch_registered) X(reinsert)
+#define DISPATCH_OPS(X) X(insert) X(erase) X(dispatch) X(dispatch_registered) X(reinsert) X(copy)
 
 namespace dops
 {
@@ -217,7 +217,7 @@ namespace
         const Plan& plan;
         Pool pool;
         Extra extra;
-        Disp disp;
+        std::unique_ptr<Disp> dp{new Disp};      // on the heap: a dispatcher that outlives the one it was copied from is a scenario
         std::map<Key, int> model;
         std::map<Key, std::pair<int, int>> uncertain;   // tuples whose last registration failed with bad_alloc: (previous handler or 0, attempted handler)
         std::vector<Call> log;
@@ -231,7 +231,7 @@ namespace
         // runtime tuple of types -> template instantiation
         template <class... Done> struct Ins
         {
-            template <class W> static void go(W& w, const Key& k, const typename W::Rec& rec, std::true_type) { (void)k; w.disp.template insert<Done...>(rec); }
+            template <class W> static void go(W& w, const Key& k, const typename W::Rec& rec, std::true_type) { (void)k; w.dp->template insert<Done...>(rec); }
             template <class W> static void go(W& w, const Key& k, const typename W::Rec& rec, std::false_type)
             {
                 constexpr size_t I = sizeof...(Done);
@@ -247,7 +247,7 @@ namespace
         };
         template <class... Done> struct Era
         {
-            template <class W> static void go(W& w, const Key& k, std::true_type) { (void)k; w.disp.template erase<Done...>(); }
+            template <class W> static void go(W& w, const Key& k, std::true_type) { (void)k; w.dp->template erase<Done...>(); }
             template <class W> static void go(W& w, const Key& k, std::false_type)
             {
                 constexpr size_t I = sizeof...(Done);
@@ -268,9 +268,9 @@ namespace
 
         // the identity of what dispatch() returned (for reference returns: which token object, -1 for any other object)
         int call(Shape* o[3]) { return call_impl(o, std::integral_constant<size_t, N>()); }
-        int call_impl(Shape* o[3], std::integral_constant<size_t, 1>) { return RetTraits<RET>::id_of(disp.dispatch(*o[0], extra)); }
-        int call_impl(Shape* o[3], std::integral_constant<size_t, 2>) { return RetTraits<RET>::id_of(disp.dispatch(*o[0], *o[1], extra)); }
-        int call_impl(Shape* o[3], std::integral_constant<size_t, 3>) { return RetTraits<RET>::id_of(disp.dispatch(*o[0], *o[1], *o[2], extra)); }
+        int call_impl(Shape* o[3], std::integral_constant<size_t, 1>) { return RetTraits<RET>::id_of(dp->dispatch(*o[0], extra)); }
+        int call_impl(Shape* o[3], std::integral_constant<size_t, 2>) { return RetTraits<RET>::id_of(dp->dispatch(*o[0], *o[1], extra)); }
+        int call_impl(Shape* o[3], std::integral_constant<size_t, 3>) { return RetTraits<RET>::id_of(dp->dispatch(*o[0], *o[1], *o[2], extra)); }
 
         void dispatch_key(const Key& k, uint64_t which)
         {
@@ -375,6 +375,43 @@ namespace
                     ++run.changing;
                 }
                 else stats().add("skipped.no_erase_in_fast_dispatcher");
+                break;
+            case OP_copy:
+                {
+                    // A dispatcher is a value: its copy answers like the original did at that moment and is independent of it -
+                    // the original may be changed or destroyed afterwards.  (Done right after a dispatch more often than not:
+                    // whatever the last lookup left behind in the original must not tie the copy to it.)
+                    static const char* const vn[] = {"copy_then_destroy_original", "copy_then_change_and_destroy_original", "copy_assign_over_other_registrations", "move_construct"};
+                    unsigned v = static_cast<unsigned>(st.b % 4);
+                    // the fast dispatcher numbers the classes of a hierarchy once per process ("one fast dispatcher per hierarchy"):
+                    // registering through two of them is outside the property, so its copies only replace the original
+                    if (!CAN_ERASE && (v == 1 || v == 2)) v = (v == 1) ? 0 : 3;
+                    tail = std::string("copy/") + vn[v];
+                    if (!model.empty() && (st.c & 3)) { auto it = model.begin(); std::advance(it, static_cast<long>((st.c >> 2) % model.size())); dispatch_key(it->first, st.d); }
+                    const int poison = 1 << 20;        // a handler that must never answer
+                    std::unique_ptr<Disp> y;
+                    if (v == 0 || v == 1) y.reset(new Disp(static_cast<const Disp&>(*dp)));
+                    else if (v == 3) y.reset(new Disp(std::move(*dp)));
+                    else
+                    {
+                        y.reset(new Disp);
+                        std::unique_ptr<Disp> keep(std::move(dp));
+                        dp = std::move(y);
+                        Ins<>::go(*this, k, Rec{&log, poison}, std::false_type());          // registered in the target of the assignment only
+                        *dp = static_cast<const Disp&>(*keep);
+                        y = std::move(dp);
+                        dp = std::move(keep);
+                    }
+                    if (v == 1)
+                        for (const auto& kv : model) Ins<>::go(*this, kv.first, Rec{&log, poison}, std::false_type());   // in the original only
+                    dp.swap(y);
+                    y.reset();                          // the original is gone
+                    SIM_PROBE("dispatcher_copied");
+                    ++run.changing;
+                    // every registered tuple and a few others answer as before
+                    for (const auto& kv : std::map<Key, int>(model)) dispatch_key(kv.first, st.d);
+                    dispatch_key(k, st.d);
+                }
                 break;
             case OP_dispatch: dispatch_key(k, st.b); break;
             case OP_dispatch_registered:
@@ -568,6 +605,13 @@ namespace
             int visit(T1& x) override { log->push_back({1, &x}); throw std::bad_cast(); }
             int visit(T2& x) override { log->push_back({2, &x}); throw std::logic_error("handler failed"); }
         };
+        // a visitor of the other flavour: it declares visit(const T&) only, which is not a handler for accept() on a non-const object
+        struct VisConstFlavour : xtl::base_visitor, xtl::visitor<mpl::vector<T1, T2>, int, true>
+        {
+            Log* log;
+            int visit(const T1& x) override { log->push_back({1, &x}); return 101; }
+            int visit(const T2& x) override { log->push_back({2, &x}); return 102; }
+        };
         static constexpr bool throwing = HT::throwing;
         Run& run; const Plan& plan; Log log; std::string tail;
         R root; T1 o1; T2 o2; T3 o3;
@@ -577,11 +621,11 @@ namespace
         {
             StepScope sc(run, st, plan.cfg.c_str());
             int t = static_cast<int>(st.a % 4);      // 0 root, 1..3 leaves
-            int v = static_cast<int>(st.b % 5);      // visitor kind
+            int v = static_cast<int>(st.b % 6);      // visitor kind
             run.abstract(mix(strhash(plan.cfg.c_str()), static_cast<uint64_t>(t), static_cast<uint64_t>(v)));
             R* target = t == 0 ? &root : (t == 1 ? static_cast<R*>(&o1) : (t == 2 ? static_cast<R*>(&o2) : static_cast<R*>(&o3)));
-            VisAll va; va.log = &log; Vis12 v12; v12.log = &log; Vis3 v3; v3.log = &log; VisNone vn; VisThrows vt; vt.log = &log;
-            xtl::base_visitor* vis = v == 0 ? static_cast<xtl::base_visitor*>(&va) : (v == 1 ? static_cast<xtl::base_visitor*>(&v12) : (v == 2 ? static_cast<xtl::base_visitor*>(&v3) : (v == 3 ? static_cast<xtl::base_visitor*>(&vn) : static_cast<xtl::base_visitor*>(&vt))));
+            VisAll va; va.log = &log; Vis12 v12; v12.log = &log; Vis3 v3; v3.log = &log; VisNone vn; VisThrows vt; vt.log = &log; VisConstFlavour vcf; vcf.log = &log;
+            xtl::base_visitor* vis = v == 5 ? static_cast<xtl::base_visitor*>(&vcf) : v == 0 ? static_cast<xtl::base_visitor*>(&va) : (v == 1 ? static_cast<xtl::base_visitor*>(&v12) : (v == 2 ? static_cast<xtl::base_visitor*>(&v3) : (v == 3 ? static_cast<xtl::base_visitor*>(&vn) : static_cast<xtl::base_visitor*>(&vt))));
             bool implemented = t != 0 && ((v == 0) || ((v == 1 || v == 4) && (t == 1 || t == 2)) || (v == 2 && t == 3));
             log.clear(); catch_log().clear();
             bool error = false; int ret = -1;
@@ -617,6 +661,7 @@ namespace
                 if (unknown_return<HT>::reports && (catch_log().size() != 1 || catch_log()[0].visitor != static_cast<const void*>(vis))) viol("no-error", "the catch-all policy was not called exactly once with the caller's visitor");
                 SIM_PROBE("catch_all_taken");
                 if (t == 3 && v == 1) SIM_PROBE("derived_visited_by_visitor_of_base_only");
+                if (v == 5 && (t == 1 || t == 2)) SIM_PROBE("visitor_of_the_other_constness");
             }
             run.dig(static_cast<uint64_t>(ret + 1000));
         }
@@ -640,6 +685,12 @@ namespace
             Log* log;
             int visit(const T2& x) override { log->push_back({2, &x}); return 102; }
         };
+        struct VisMutableFlavour : xtl::base_visitor, xtl::visitor<mpl::vector<T1, T2>, int, false>
+        {
+            Log* log;
+            int visit(T1& x) override { log->push_back({1, &x}); return 101; }
+            int visit(T2& x) override { log->push_back({2, &x}); return 102; }
+        };
         static constexpr bool throwing = HT::throwing;
         Run& run; const Plan& plan; Log log; std::string tail;
         R root; T1 o1; T2 o2; T3 o3;
@@ -648,12 +699,12 @@ namespace
         void step(const Step& st)
         {
             StepScope sc(run, st, plan.cfg.c_str());
-            int t = static_cast<int>(st.a % 4), v = static_cast<int>(st.b % 2);
+            int t = static_cast<int>(st.a % 4), v = static_cast<int>(st.b % 3);
             run.abstract(mix(strhash(plan.cfg.c_str()), static_cast<uint64_t>(t), static_cast<uint64_t>(v)));
             const R* target = t == 0 ? &root : (t == 1 ? static_cast<const R*>(&o1) : (t == 2 ? static_cast<const R*>(&o2) : static_cast<const R*>(&o3)));
-            VisAll va; va.log = &log; Vis2 v2; v2.log = &log;
-            xtl::base_visitor* vis = v == 0 ? static_cast<xtl::base_visitor*>(&va) : static_cast<xtl::base_visitor*>(&v2);
-            bool implemented = t != 0 && (v == 0 || t == 2);
+            VisAll va; va.log = &log; Vis2 v2; v2.log = &log; VisMutableFlavour vmf; vmf.log = &log;
+            xtl::base_visitor* vis = v == 0 ? static_cast<xtl::base_visitor*>(&va) : v == 1 ? static_cast<xtl::base_visitor*>(&v2) : static_cast<xtl::base_visitor*>(&vmf);
+            bool implemented = t != 0 && (v == 0 || (v == 1 && t == 2));
             log.clear(); catch_log().clear();
             bool error = false; int ret = -1;
             try { ret = target->accept(*vis); } catch (const std::runtime_error&) { error = true; }
@@ -718,7 +769,7 @@ namespace
         size_t n = 2;
         while (n < 40 && cfg.below(14) != 0) ++n;
         plan.params.push_back(n);
-        unsigned w[OP_COUNT] = {8, 3, 8, 8, 2};
+        unsigned w[OP_COUNT] = {8, 3, 8, 8, 2, 2};
         unsigned fault_pct = static_cast<unsigned>(cfg.below(3)) * 15;     // 0, 15, 30 % of the registrations meet an allocation failure
         if (plan.cfg.compare(0, 4, "map_") != 0 && plan.cfg.compare(0, 5, "fast_") != 0) fault_pct = 0;   // only functor dispatchers register at run time
         plan.params.push_back(fault_pct);
